@@ -1,0 +1,54 @@
+package value
+
+import (
+	"github.com/hneemann/iterator"
+	"github.com/hneemann/parser2"
+)
+
+// A generated function recovers panics only on the goroutine that called it.
+// Closures that list operations run on other goroutines (the workers of a
+// parallel map/accept, the producers of merge, the consumers of multiUse)
+// must therefore not let a panic escape: it would terminate the process.
+
+// recoverAsError is to be deferred. It turns a panic into the returned error.
+func recoverAsError(err *error) {
+	if rec := recover(); rec != nil {
+		*err = parser2.AnyToError(rec)
+	}
+}
+
+// recoverInProducer returns a producer that yields a panic raised while p
+// produces its elements as the error of a final element. It is used for
+// producers that are iterated on their own goroutine.
+func recoverInProducer(p iterator.Producer[Value]) iterator.Producer[Value] {
+	return func(yield iterator.Consumer[Value]) {
+		defer func() {
+			if rec := recover(); rec != nil {
+				yield(nil, parser2.AnyToError(rec))
+			}
+		}()
+		p(yield)
+	}
+}
+
+// panicOnCaller returns a producer that behaves like p, except that a panic
+// raised by the consumer is raised on the goroutine that iterates the
+// producer, even if p calls the consumer from another goroutine, as the
+// parallel mode of iterator.MapAuto does.
+func panicOnCaller(p iterator.Producer[Value]) iterator.Producer[Value] {
+	return func(yield iterator.Consumer[Value]) {
+		var raised any
+		p(func(v Value, err error) (goOn bool) {
+			defer func() {
+				if rec := recover(); rec != nil {
+					raised = rec
+					goOn = false
+				}
+			}()
+			return yield(v, err)
+		})
+		if raised != nil {
+			panic(raised)
+		}
+	}
+}
